@@ -514,6 +514,15 @@ func (s *Sim) ghostAction(a, b, c int) {
 		}
 	}
 	if !found {
+		// The protocol assumes that the dishonest stake is too small for two values to reach a threshold in one
+		// step (the vote tracker asserts it and panics otherwise). The ghosts hold most of the stake, so they must
+		// respect that bound as a population: a vote that would let a SECOND value of this step reach the
+		// threshold - counting every equivocator for every value and all honest weight for whichever value
+		// needs it - is not cast. (A thorough run hit the assertion at step "late", whose threshold is only 64%.)
+		if !s.ghostWithinBound(gi, r, p, step, val) {
+			s.stat("ghost.vote_withheld_two_values_bound", 1)
+			return
+		}
 		s.ghostSent[key] = append(sent, val)
 	}
 	s.emitted[voteSha(*uv)] = true
@@ -522,4 +531,63 @@ func (s *Sim) ghostAction(a, b, c int) {
 	for _, t := range s.honestTargets(c & 3) {
 		s.inject(t, protocol.AgreementVoteTag, data, "ghost")
 	}
+}
+
+// stepWeight: reference committee weight of account idx at (r, p, step), cached.
+func (s *Sim) stepWeight(idx int, r basics.Round, p, step uint64) uint64 {
+	k := fmt.Sprintf("%d|%d|%d|%d", idx, r, p, step)
+	if w, ok := s.weightCache[k]; ok {
+		return w
+	}
+	if s.weightCache == nil {
+		s.weightCache = map[string]uint64{}
+	}
+	a := Accounts()[idx]
+	var w uint64
+	proto := params()
+	if seed, ok := s.RefSeed(r.SubSaturate(basics.Round(proto.SeedLookback))); ok {
+		cred := committee.MakeCredential(&a.VRF.SK, selectorM{Seed: seed, Round: r, Period: p, Step: step})
+		if rec, ok := s.RefAccount(a.Addr); ok {
+			w, _ = refCredWeight(s, rec, a.Addr, r, p, step, cred.Proof)
+		}
+	}
+	s.weightCache[k] = w
+	return w
+}
+
+// ghostWithinBound: may ghost gi add a vote for val at (r, p, step) without making it possible for two
+// values to reach the step's threshold? Worst case over everything the honest accounts might vote.
+func (s *Sim) ghostWithinBound(gi int, r basics.Round, p, step uint64, val PValue) bool {
+	_, thr := stepCommittee(params(), step)
+	var honest uint64
+	for _, l := range s.cfg.Accts {
+		for _, a := range l {
+			honest += s.stepWeight(a, r, p, step)
+		}
+	}
+	per := map[PValue]uint64{}
+	var eq uint64
+	for _, g := range s.cfg.AdvAccts {
+		sent := append([]PValue(nil), s.ghostSent[fmt.Sprintf("%d|%d|%d|%d", g, r, p, step)]...)
+		if g == gi {
+			sent = append(sent, val)
+		}
+		w := s.stepWeight(g, r, p, step)
+		switch {
+		case len(sent) >= 2:
+			eq += w
+		case len(sent) == 1:
+			per[sent[0]] += w
+		}
+	}
+	if _, ok := per[val]; !ok {
+		per[val] = 0
+	}
+	reach := 0
+	for _, w := range per {
+		if w+eq+honest >= thr {
+			reach++
+		}
+	}
+	return reach <= 1
 }
